@@ -200,10 +200,14 @@ def build_layer(d, roots):
 
 
 _IDS_FUNCS = {}
+PICKLABLE = [False]     # C19: user callables must be importable (see pickpool.py)
 
 
 def _const_ids(ids):
     """one function object per id tuple, reused across rebuilds (in-process hashes compare functions by identity)"""
+    if PICKLABLE[0]:
+        import pickpool
+        return pickpool.ConstIds(ids)
     if ids not in _IDS_FUNCS:
         def f():
             return ids
@@ -216,6 +220,9 @@ _PREDS = {}
 
 
 def _named_pred(fn, args):
+    if PICKLABLE[0]:
+        import pickpool
+        return pickpool.NamedPred(fn.__name__, args)
     key = (fn, tuple(args))
     if key not in _PREDS:
         ns = {}
